@@ -850,18 +850,23 @@ def inner_sides_type(stmt):
     return None
 
 
-def judge(ctx, macro, tree, goal, th, envs=None):
+def judge(ctx, macro, tree, goal, th, envs=None, extra=None):
     """Property oracle on one accepted step.  Returns a histogram label."""
-    rp = {"macro": macro, "goal": tree, "asserted": safe_str(th)}
+    rp = {"macro": macro, "goal": tree}
+    rp.update(extra or {})
+
+    def violation(key, what):
+        rp["asserted"] = safe_str(th)        # printing is slow: only when something is reported
+        ctx.violation(key, what, rp)
     key_goal = short_key(tree)
     if len(th.hyps) != 0:
-        ctx.violation("hyps:%s:%s" % (macro, key_goal), "%s returned a sequent with hypotheses: %s" % (macro, safe_str(th)), rp)
+        violation("hyps:%s:%s" % (macro, key_goal), "%s returned a sequent with hypotheses: %s" % (macro, safe_str(th)))
         return "viol"
     stmt = th.prop
     # (a) shape and type the step is meant for
     st = inner_sides_type(stmt) if macro == "real_eq_comparison" else side_type(stmt)
     if st not in INTENDED[macro]:
-        ctx.violation("wrong-type:%s:%s" % (macro, st), "%s accepted a goal about terms of type %s: |- %s" % (macro, st, safe_str(stmt)), rp)
+        violation("wrong-type:%s:%s" % (macro, st), "%s accepted a goal about terms of type %s: |- %s" % (macro, st, safe_str(stmt)))
         return "viol"
     # (b) truth
     vars_ = stmt.get_vars()
@@ -890,14 +895,14 @@ def judge(ctx, macro, tree, goal, th, envs=None):
                     rp["atoms"] = {str(k): str(x) for k, x in env.get("__atoms__", {}).items()}
                     break
     except NoMeaning as e:
-        ctx.violation("no-meaning:%s:%s" % (macro, key_goal), "%s asserted a statement with no standard meaning (%s): |- %s" % (macro, e, safe_str(stmt)), rp)
+        violation("no-meaning:%s:%s" % (macro, key_goal), "%s asserted a statement with no standard meaning (%s): |- %s" % (macro, e, safe_str(stmt)))
         return "viol"
     except Undecided:
         # equal to 160 digits: accept only non-strict / equality statements as plausibly true
         ctx.count("oracle:undecided-at-%d-digits" % MP_DPS)
         return "undecided"
     if not ok:
-        ctx.violation("false:%s:%s" % (macro, key_goal), "%s asserted a false statement: |- %s" % (macro, safe_str(stmt)), rp)
+        violation("false:%s:%s" % (macro, key_goal), "%s asserted a false statement: |- %s" % (macro, safe_str(stmt)))
         return "viol"
     return "true"
 
@@ -1560,6 +1565,152 @@ def macro_stream(ctx, goals, label, macros=None, envs_for=None):
                     ctx.broken("correspondence:c05:macro:%s" % macro, "goal=%s impl=%s model=%s" % (wire_str(to_wire(goal, {})), ii, out[li]))
                     ctx.coverage["disagreements_checked"] += 1
     return out is not None
+
+
+def history_pairs(rng, n):
+    """[(true_tree, false_tree, flavour)]: two goals of the SAME shape (so that a released goal and its successor are
+    allocated alike), the first true, the second a near miss (value off by one / strictness flipped / wrong type)."""
+    out = []
+    old = SMALL[0]
+    SMALL[0] = True
+    try:
+        guard = 0
+        while len(out) < n and guard < 50 * n:
+            guard += 1
+            r = rng.random()
+            if r < 0.12:
+                # polynomial identity with free variables (real_norm), constant moved / changed
+                x, y = ["var", "x", "real"], ["var", "y", "real"]
+                e = rng.choice([["times", "real", x, y], ["plus", "real", x, ["times", "real", lit("real", rng.randint(2, 5)), y]],
+                                ["power", "real", ["plus", "real", x, lit("real", 1)], lit("nat", 2)], x])
+                c = rng.randint(-4, 4)
+                lhs = ["plus", "real", e, lit("real", c)]
+                out.append((["eq", "real", lhs, ["plus", "real", lit("real", c), e]],
+                            ["eq", "real", lhs, ["plus", "real", lit("real", c + rng.choice([1, -1])), e]], "history-poly"))
+                continue
+            if r < 0.2:
+                # (a OP b) ⟷ (a + s OP b + s), and shifted on one side only
+                x = ["var", "x", "real"]
+                op = rng.choice(CMPS)
+                a, b, s = ["times", "real", lit("real", rng.randint(1, 3)), x], lit("real", rng.randint(-3, 3)), rng.randint(1, 3)
+                lhs = [op, "real", a, b]
+                b2 = lambda k: lit("real", Fraction(int(b[2])) + k)      # noqa
+                out.append((["eq", "bool", lhs, [op, "real", ["plus", "real", a, lit("real", s)], b2(s)]],
+                            ["eq", "bool", lhs, [op, "real", ["plus", "real", a, lit("real", s)], b2(s + rng.choice([1, 2]))]], "history-eqcmp"))
+                continue
+            T = rng.choice(["nat", "nat", "int", "int", "int", "real", "real"])
+            e = gen_expr(rng, T, rng.choice([1, 1, 2]))
+            if digits_bound(e) > 200 or e[0] == "lit":
+                continue
+            v = value_of(e, "typed")
+            if v is None or (T != "real" and v.denominator != 1) or (T == "nat" and v < 0):
+                continue
+            if r < 0.32:
+                # the same text at another type: (1::nat) - 2 = 0 is true, (1::int) - 2 = 0 is not
+                T2 = rng.choice([t for t in ("nat", "int", "real") if t != T])
+                e2 = json.loads(json.dumps(e).replace('"%s"' % T, '"%s"' % T2))
+                v2 = value_of(e2, "typed")
+                if v2 is None or v2 == v or (T2 != "real" and v2.denominator != 1) or (T2 == "nat" and (v < 0 or v2 < 0)) or \
+                        (T2 != "real" and v.denominator != 1):
+                    continue
+                out.append((["eq", T, e, lit(T, v)], ["eq", T2, e2, lit(T2, v)], "history-retyped"))
+                continue
+            rel = rng.choice(["eq", "eq", "eq", "eq", "eq", "lt", "le", "gt", "ge"])
+            d = 1 if T != "real" else rng.choice([1, 1, Fraction(1, 2), Fraction(1, 1000)])      # short numerals: a step costs ~0.2 ms
+            tv, fv = {"eq": (v, v + d), "lt": (v + d, v), "le": (v, v - d), "gt": (v - d, v), "ge": (v, v + d)}[rel]
+            if rel == "eq" and rng.random() < 0.5 and not (T == "nat" and v - d < 0):
+                fv = v - d
+            if T == "nat" and (tv < 0 or fv < 0):
+                continue
+            gt_, gf_ = [rel, T, e, lit(T, tv)], [rel, T, e, lit(T, fv)]
+            w = rng.random()
+            if w < 0.22:
+                gt_, gf_ = ["neg", gf_], ["neg", gt_]
+            elif w < 0.25:
+                gt_, gf_ = ["eq", "bool", gt_, "tru"], ["eq", "bool", gf_, "tru"]
+            elif w < 0.28:
+                gt_, gf_ = ["eq", "bool", gf_, "fls"], ["eq", "bool", gt_, "fls"]
+            out.append((gt_, gf_, "history-%s" % rel))
+    finally:
+        SMALL[0] = old
+    return out
+
+
+def history_stream(ctx, envs):
+    """HISTORIES in one process.  The trusted macros are singleton objects of the registry and Term._id is the address of
+    the term: goals are built, checked by every trusted macro, and RELEASED (del + gc.collect); then new goal objects of the
+    same shape -- which get the addresses / `_id`s of the released ones -- are checked by the same macro objects.  True
+    goals and false near misses (off by one, strictness flipped, same text at another type) are interleaved in three
+    schedules: all true ones then all false ones; alternating; each false one directly after its released true twin.
+    Every accepted sequent is judged by the exact oracle, so a verdict remembered per object identity, per printed text or
+    per anything else that survives the goal shows as an accepted false statement."""
+    import gc
+    rng = ctx.rng("history")
+    macros = MODELLED + ORACLE_ONLY
+    pairs = history_pairs(rng, ctx.scale(1200, 6000))
+    steps = [0]
+    trail = []
+    cap = ctx.scale(160, 600)
+
+    def one(macro, tree, flav, expect):
+        # every kernel object of this step dies when the function returns
+        steps[0] += 1
+        goal = build(tree)
+        res = run_check(macro, goal)
+        trail.append((macro, short_key(tree)[:160], res[0]))
+        del trail[:-12]
+        ctx.case(("history", macro, tree), nontrivial=res[0] == "ok")
+        ctx.count("history:%s:%s:%s" % (macro, "true-goal" if expect else "near-miss", res[0]))
+        if res[0] != "ok":
+            return res[0]
+        # the failing input is the goal AFTER this history; a replay re-runs the stream of this seed up to the step
+        extra = {"history": {"seed": ctx.seed, "tier": ctx.tier, "step": steps[0], "preceding_steps(macro, goal, verdict)": list(trail)}}
+        verdict = judge(ctx, macro, tree, goal, res[1], envs, extra)
+        ctx.count("oracle:%s" % verdict)
+        ctx.count("accepted-flavour:%s" % flav)
+        return "ok"
+
+    def targets(tree):
+        # the macros meant for terms of the goal's type, and now and then one that is not
+        t = tree
+        while isinstance(t, list) and (t[0] == "neg" or (t[0] == "eq" and t[1] == "bool")):
+            t = t[1] if t[0] == "neg" else t[2]
+        T = t[1] if isinstance(t, list) and len(t) == 4 else None
+        ms = [m for m in macros if T in INTENDED[m]]
+        if rng.random() < 0.3:
+            ms.append(rng.choice([m for m in macros if m not in ms] or macros))
+        return ms
+
+    # 1. mixed pass: every true goal to the macros meant for its type (all macro objects interleaved); remembers which
+    #    macro accepted which goal, so that the next passes need no table of the shapes a macro is meant for
+    accepted = dict((m, []) for m in macros)
+    for t, f, fl in pairs:
+        for macro in targets(t):
+            if one(macro, t, fl, True) == "ok" and len(accepted[macro]) < cap:
+                accepted[macro].append((t, f, fl))
+    gc.collect()                                         # a full collection of this heap takes ~0.7 s: only twice
+    # 2. one macro object at a time, on goals of the shapes it accepts: all true goals (new objects), released; then
+    #    their near misses; then alternating, each near miss directly after its released true twin
+    for macro in macros:
+        acc = accepted[macro]
+        for t, f, fl in acc:
+            one(macro, t, fl, True)
+        gc.collect(1)
+        for t, f, fl in acc:
+            one(macro, f, fl, False)
+        for t, f, fl in acc[:cap // 2]:
+            one(macro, t, fl, True)
+            one(macro, f, fl, False)
+        junk = [build(t) for t, _, _ in acc[:8]]         # object churn: unrelated terms allocated and dropped
+        del junk
+        gc.collect(1)
+        ctx.count("history:%s:true-goals-in-concentrated-pass" % macro, len(acc))
+    # 3. finally every near miss to every macro meant for its type, after the complete history
+    gc.collect()
+    for t, f, fl in pairs:
+        for macro in targets(f):
+            one(macro, f, fl, False)
+    ctx.coverage["history_steps"] = steps[0]
 
 
 def rand_envs(rng, n=6):
@@ -2408,8 +2559,13 @@ def run(ctx):
         "near-equal family: a + d ⋈ b with value(a) = value(b) irrational (pi, sqrt 2, sqrt 2 * sqrt 2 ~ 2, exp(log 3) ~ 3, 10^80 * sqrt 2, ...), "
         "d = ±10^-50..±10^-200 (±1 at the 10^80 scale), six relations, both orders, truth = sign of d; eval_inequality_expr with injected "
         "rational enclosures (15 x 15 enclosure pairs x 6 relations) against the model's accept conditions; "
-        "polynomial (non-)identities over x y n; every goal is sent to every trusted arithmetic macro. A case is (macro, goal); non-trivial = "
-        "the checker accepted it; distinct by the goal tree.")
+        "polynomial (non-)identities over x y n; every goal is sent to every trusted arithmetic macro. HISTORIES in one process (history stream): "
+        "1200 pairs (true goal, near miss of the same shape: value off by 1 / 1/2 / 1/1000, strictness flipped, negated, the same text at another "
+        "type, polynomial identity with a changed constant, shifted comparison equivalence); goals are built, checked by the singleton macro objects "
+        "and released (del, gc.collect), then new goal objects -- which reuse the addresses / Term._id of released ones -- are checked by the same "
+        "macro objects: all macros interleaved; one macro at a time on the goals it accepted (all true ones, then all near misses; then "
+        "alternating twin by twin); finally every near miss after the complete history; every accepted sequent judged by the exact oracle. "
+        "A case is (macro, goal); non-trivial = the checker accepted it; distinct by the goal tree.")
     # 1. translated table + Lean obligations (importing every macro module may switch the current theory:
     #    K.load() afterwards makes 'transcendentals' the current one)
     try:
@@ -2460,6 +2616,8 @@ def run(ctx):
     ctx.sample({"near_equal": ne_cases[0]})
     interval_decision_stream(ctx)
     forged_stream(ctx)
+    history_stream(ctx, envs)
+    ctx.log("history stream done: %d steps" % ctx.coverage.get("history_steps", 0))
     n_tf = theory_function_stream(ctx)
     iv_trees = [x[3] for x in tf_terms(ctx, theory_function_symbols()) if x[2] == "real"]
     for g in directed_goals():
@@ -2545,7 +2703,11 @@ def replay(ctx, rp):
         if bad:
             print("still fails: %s(%s) = %s, value %s" % (ename, safe_str(vt), safe_str(got), mp().nstr(tv, 30)))
         return bad
-    if "near_equal" in r:
+    if "history" in r:
+        # the failing input is a goal after a history of checked and released goals: re-run that history
+        ctx.seed, ctx.tier = int(r["history"]["seed"]), r["history"].get("tier", ctx.tier)
+        history_stream(ctx, rand_envs(ctx.rng("envs")))
+    elif "near_equal" in r:
         near_equal_stream(ctx, [r["near_equal"]], macros=[r["macro"]])
     elif r.get("forged"):
         goal = build(r["goal"])
@@ -2580,14 +2742,20 @@ MANIFEST = {
             "(decide). Ties: differential runs through the real check_proof (all nine macros); const_inequality, real_interval_eval and "
             "eval_bounds run with an injected exact-rational interval context whose primitive calls are recorded and handed to the model "
             "(identical verdicts / endpoints); eval_inequality_expr with injected enclosures; every accepted sequent judged by an independent "
-            "exact/high-precision evaluator; every numeric function constant of the theory fed to every evaluator.",
+            "exact/high-precision evaluator; every numeric function constant of the theory fed to every evaluator. The Lean models are pure "
+            "functions of the goal; that the real macro OBJECTS (singletons of the registry, alive for the whole process) also decide every "
+            "goal on its own merits is checked by the history stream: ~15000 one-step proofs in one process in which true goals and false near "
+            "misses of every trusted macro are built, checked, released and re-allocated (object churn, address / Term._id reuse, same text at "
+            "another type), every acceptance judged by the exact oracle.",
     "note": "Trusted / partial: the enclosure property of mpmath's iv primitives (conversion, + - * / ** abs, exp log sqrt sin cos, pi) and the "
             "three facts about exp/log (FnsSpec) are hypotheses of const_inequality_sound; the value of a term there (tval) is taken in an "
             "abstract ordered field with the library's definitions of tan/cot/sec/csc and of real power. const_inequality_exact_sound_partial "
             "is the older statement about the exact branch in the ℚ semantics (kept; the full model is constInequalityFull). real_norm_macro_sound "
             "is stated over ℚ (the K-valued version is poly_eq_tval inside const_inequality_sound). real_eq_comparison has no Lean model: it "
             "builds a proof term, so it could be checked by expansion (level 1) instead of being trusted — a policy change for the maintainers, not a defect, hence not applied; "
-            "until then it is judged by the oracle only. The model speaks about terms of the theory; goals with a constant at a non-instance "
+            "until then it is judged by the oracle only (its eval is real_norm_comparison = rewriting + auto.auto_conv on both sides, i.e. the whole "
+            "auto/conv machinery; not modelled). History independence of the macros is oracle-checked only (no theorem: the models have no state). "
+            "The model speaks about terms of the theory; goals with a constant at a non-instance "
             "of its declared type must be rejected (directed stream, fixes/C05-3). Trusted: Lean kernel, propext/Classical.choice/Quot.sound, "
             "the C10 polynomial files (imported read-only), the harness generators and wire writer, Fraction/mpmath/sympy.",
     "design_ref": "DESIGN.md 4/C05",
